@@ -2077,6 +2077,1414 @@ def probe_pivot_aux(ctx):
             ctx.ok(k, sample={"pivot-aux-layout": "ancillas first, data last", "n": n, "m": m, "subset": sub, "err": err})
 
 
+# ================================================================================================
+# input-diversity pass: FORMS of otherwise ordinary inputs (element types, scale structure, sign / phase structure,
+# call forms, smallest sizes).  Oracle only: the Lean model speaks about gate lists over G and the width table, it has no
+# notion of dtype, host registers, qubit-list style or Python call form; the widths that occur here are rows the width tie
+# already sends (n = 1..3, same options), so nothing new is registered with ctx.tie.
+#
+#   form x entry point                                                   -> where generated
+#   ------------------------------------------------------------------------------------------------------------------
+#   element types (py int / float / complex lists, tuple, list of numpy scalars, int64, float32 / complex64 exactly
+#     representable, float32 / complex64 generic = reduced precision, float64, complex with zero imaginary part,
+#     negative zeros) x every dense class, Mixed (ensemble of such vectors, probabilities list / tuple / ndarray),
+#     Merge / Pivot / Cvoqram (dict values int / float / complex / numpy scalars, keys unsorted / descending),
+#     FnPoints (int / numpy int outputs)                                 -> diversity_cases (A) via dv_dense / dv_sparse / dv_fn
+#   scale structure (head + light tail at start / end / mixed, equal moduli, uniform, repeated values, single amplitude
+#     of modulus 1, many zeros, norm in one sub-tree) x the same classes -> diversity_cases (A)
+#   sign / phase structure (all negative, purely imaginary, global phase -1 / i, per-entry phases +-1 +-i, negative
+#     integers) x the same classes                                       -> diversity_cases (A)
+#   call forms x every class: X.initialize(host, data, qubits=.., opt_params=.., probabilities=..) keyword / positional /
+#     qubits=None; append; compose(definition); compose(gate); definition.to_gate(); host.decompose(); definition read
+#     twice; inverse().inverse(); gate then inverse / inverse then gate; deepcopy / copy BEFORE the definition exists; one
+#     gate object appended twice; the same opt_params dict reused with changed contents; options None / {} / one key / all
+#     keys; every keyword alone and all at once (Mixed: qubits, opt_params, probabilities; constructor: initializer, label,
+#     reset, classical); qubit lists as ints / tuple / Qubit objects / mixed / QuantumRegister / reversed register /
+#     register slice, hosts built from several registers in shuffled order, host = w, w+1, w+3
+#                                                                        -> diversity_cases (A: rotating, B: every call form
+#                                                                           per class with an option that changes the operator)
+#   sizes n = 1, 2 (3) for every class that allows them                  -> both sweeps rotate n over the allowed sizes
+#   unitary() / isometry.decompose(): int permutation (nested list, tuple, int64), real orthogonal float64, float32 /
+#     complex64 exact (Hadamard-type, i * permutation), reduced precision, -I, i * I, diagonal of +-1 +-i, complex with zero
+#     imaginary part, negative zeros; result used via compose / to_gate / to_instruction on a permuted subset of a host;
+#     every keyword alone and all at once                                -> diversity_fn_cases via run_divfn
+#
+# Judgement of a form (brief: no false alarms): forms that are the SAME valid input must give, to 1e-7, the state the class
+# prepares from the complex128 copy of the same numbers (and, for the exact classes with state-preserving options, the
+# numbers themselves); reduced-precision arrays must either be rejected with ValueError or agree with the up-cast input to
+# 1e-5 - a different exception type or an error above that is a failure; every call form must act as the class-level
+# construction `X(data, <same keywords>)` embedded on the listed qubits in the listed order and as the identity elsewhere;
+# the caller's objects are byte-compared before / after.
+# Excluded bands: light tails are drawn in [3e-4, 3e-3] (rank cut 1e-7, np.allclose merges 1e-5, A.2 special-class
+# fidelity 1e-9 all stay > 30x away); truncating options (lr >= 1, max_fidelity_loss > 0) only meet generic complex data.
+# ================================================================================================
+
+DV_DENSE_FORMS = ["pylist-int-basis", "pylist-negint-basis", "tuple-complex", "pylist-float-signed", "list-npscalars",
+                  "int64-basis", "int64-neg-basis", "f32-exact", "c64-exact", "f32-generic", "c64-generic", "f64-signed",
+                  "c128-zero-imag", "negzero-f64", "negzero-c128", "all-negative", "imag-positive", "imag-signed",
+                  "phase-minus1", "phase-i", "head-tail-start", "head-tail-end", "head-tail-mixed", "equal-moduli-phases",
+                  "equal-moduli-signs", "uniform", "repeated-two-values", "single-one-phase", "sparse-zeros", "subtree-norm",
+                  "zero-interleaved"]
+DV_MIXED_FORMS = ["pylist-int-basis", "tuple-complex", "pylist-float-signed", "list-npscalars", "int64-basis", "f32-exact",
+                  "c64-exact", "c64-generic", "f64-signed", "negzero-c128", "all-negative", "imag-signed", "head-tail-mixed",
+                  "equal-moduli-phases", "repeated-two-values", "single-one-phase"]
+DV_SPARSE_FORMS = ["int-one", "negint-one", "pyfloat-signed", "pycomplex", "np-float64", "np-complex128", "np-int64-one",
+                   "np-float32-exact", "np-complex64-exact", "np-float32-generic", "complex-zero-imag", "negzero-imag",
+                   "all-negative", "imag", "head-tail", "equal-moduli-phases", "repeated", "single-one-phase-i",
+                   "keys-descending", "mixed-value-types"]
+DV_FN_FORMS = ["py-int", "np-int64", "np-int32", "single-point", "all-equal-outputs", "keys-descending"]
+DV_REDUCED = ("f32-generic", "c64-generic", "np-float32-generic")
+DV_STYLES = ["int", "qubit", "tuple", "mixed", "register", "reg-rev", "reg-slice", "regs-int", "regs-qubit"]
+DV_CALLS = ["init", "init-none", "init-pos", "append", "compose", "compose-gate", "to_gate", "decompose", "def-twice",
+            "inv-inv", "gate-inv", "inv-gate", "deepcopy", "copy-first", "twice", "reuse-opts"]
+DV_NEEDS_UNITARY = ("inv-inv", "gate-inv", "inv-gate")
+DV_NO_OPTS = ("SVDInitialize", "DcspInitialize", "BlackBoxInitialize", "MergeInitialize")
+
+
+def _dv_unit(v):
+    v = np.asarray(v, dtype=complex)
+    return v / np.linalg.norm(v)
+
+
+def dv_dense(form, n, r):
+    """-> raw input of `form` on n qubits (a valid normalised vector).  The canonical complex128 copy is np.array(raw)."""
+    d = 2 ** n
+    hv = _dv_unit(r.normal(size=d) + 1j * r.normal(size=d))
+    rv = r.normal(size=d)
+    rv = np.where(np.abs(rv) < 0.1, 0.3, rv)
+    rv = rv / np.linalg.norm(rv)
+    j = int(r.integers(d))
+    quarter = np.array([1, -1, 1j, -1j])
+    # exactly representable in float32: 4 entries of modulus 1/2 (d >= 4), one entry of modulus 1 (d = 2)
+    pos4 = sorted(int(i) for i in r.choice(d, size=4, replace=False)) if d >= 4 else [j]
+    mod4 = 0.5 if d >= 4 else 1.0
+    if form == "pylist-int-basis":
+        raw = [0] * d
+        raw[j] = 1
+        return raw
+    if form == "pylist-negint-basis":
+        raw = [0] * d
+        raw[j] = -1
+        return raw
+    if form == "tuple-complex":
+        return tuple(complex(x) for x in hv)
+    if form == "pylist-float-signed":
+        return [float(x) for x in rv]
+    if form == "list-npscalars":
+        raw = [np.complex128(x) for x in hv]
+        raw[0] = np.float64(raw[0].real)                       # mixed scalar types in one list
+        raw = [x / np.sqrt(sum(abs(complex(y)) ** 2 for y in raw)) for x in raw]
+        return [np.float64(raw[0].real)] + [np.complex128(x) for x in raw[1:]]
+    if form == "int64-basis":
+        raw = np.zeros(d, dtype=np.int64)
+        raw[j] = 1
+        return raw
+    if form == "int64-neg-basis":
+        raw = np.zeros(d, dtype=np.int64)
+        raw[j] = -1
+        return raw
+    if form == "f32-exact":
+        raw = np.zeros(d, dtype=np.float32)
+        raw[pos4] = np.float32(mod4) * r.choice([-1.0, 1.0], size=len(pos4)).astype(np.float32)
+        raw[pos4[0]] = -np.float32(mod4)                       # at least one negative entry
+        return raw
+    if form == "c64-exact":
+        raw = np.zeros(d, dtype=np.complex64)
+        raw[pos4] = (mod4 * quarter[r.integers(4, size=len(pos4))]).astype(np.complex64)
+        raw[pos4[0]] = np.complex64(-1j * mod4)
+        return raw
+    if form == "f32-generic":
+        return rv.astype(np.float32)
+    if form == "c64-generic":
+        return hv.astype(np.complex64)
+    if form == "f64-signed":
+        raw = rv.copy()
+        raw[0] = -abs(raw[0])
+        return raw
+    if form == "c128-zero-imag":
+        raw = rv.astype(complex)
+        raw[-1] = -abs(raw[-1])
+        return raw
+    if form in ("negzero-f64", "negzero-c128"):
+        raw = rv.copy()
+        if d >= 4:
+            raw[[int(i) for i in r.choice(d, size=d // 2, replace=False)]] = 0.0
+        if not np.any(raw):
+            raw[j] = 1.0
+        raw = raw / np.linalg.norm(raw)
+        if form == "negzero-f64":
+            raw = np.where(raw == 0, -0.0, raw)
+            if d == 2:
+                raw = np.array([-0.0, -1.0]) if j else np.array([-1.0, -0.0])
+            return raw
+        out = np.array([complex(-0.0, -0.0) if x == 0 else complex(x, -0.0) for x in raw])
+        if d == 2:
+            out = np.array([complex(-0.0, -0.0), complex(-1.0, -0.0)])
+        return out
+    if form == "all-negative":
+        return -np.abs(rv)
+    if form == "imag-positive":
+        return 1j * np.abs(rv)
+    if form == "imag-signed":
+        return 1j * rv
+    if form == "phase-minus1":
+        return -np.abs(hv) if d == 2 else -hv
+    if form == "phase-i":
+        return 1j * hv
+    if form.startswith("head-tail"):
+        tail = np.exp(r.uniform(np.log(3e-4), np.log(3e-3), size=d)) * np.exp(1j * r.uniform(0, 2 * np.pi, size=d))
+        heads = {"head-tail-start": [0], "head-tail-end": [d - 1], "head-tail-mixed": sorted({d // 2, max(d // 2 - 1, 0)})}[form]
+        for h in heads:
+            tail[h] = np.exp(1j * r.uniform(0, 2 * np.pi)) * r.uniform(0.6, 1.0)
+        return _dv_unit(tail)
+    if form == "equal-moduli-phases":
+        return quarter[r.integers(4, size=d)] / np.sqrt(d)
+    if form == "equal-moduli-signs":
+        raw = r.choice([-1.0, 1.0], size=d) / np.sqrt(d)
+        raw[j] = -abs(raw[j])
+        return raw
+    if form == "uniform":
+        return np.full(d, 1 / np.sqrt(d))
+    if form == "repeated-two-values":
+        a, b = complex(r.normal(), r.normal()), complex(r.normal(), r.normal())
+        raw = np.array([a if (i // max(d // 4, 1)) % 2 == 0 else b for i in range(d)])
+        return raw / np.linalg.norm(raw)
+    if form == "single-one-phase":
+        raw = np.zeros(d, dtype=complex)
+        raw[j] = quarter[int(r.integers(1, 4))]
+        return raw
+    if form == "sparse-zeros":
+        raw = np.zeros(d, dtype=complex)
+        for i in r.choice(d, size=min(2, d), replace=False):
+            raw[int(i)] = complex(r.normal(), r.normal())
+        return raw / np.linalg.norm(raw)
+    if form == "subtree-norm":
+        raw = np.zeros(d, dtype=complex)
+        half = d // 2
+        raw[half:] = hv[half:]
+        return raw / np.linalg.norm(raw)
+    if form == "zero-interleaved":
+        # [a, 0, b, 0, ...]: every sibling pair is (x, 0) - multiplexer blocks that repeat / merge
+        raw = np.where(np.arange(d) % 2 == 0, rv, 0.0)
+        return raw / np.linalg.norm(raw)
+    if form == "c128-haar":
+        return hv
+    if form == "strided-view":
+        parent = r.normal(size=2 * d) + 1j * r.normal(size=2 * d)
+        parent[::2] = hv
+        return parent[::2]                                     # a view: `.base` (the parent) must stay as it is, too
+    if form == "readonly":
+        raw = hv.copy()
+        raw.flags.writeable = False
+        return raw
+    raise KeyError(form)
+
+
+def dv_sparse(form, n, m, r, hamming=False, min_m=1):
+    """-> dict raw of `form` with (about) m binary strings on n qubits."""
+    quarter = [1, -1, 1j, -1j]
+    if form in ("int-one", "negint-one", "np-int64-one", "single-one-phase-i"):
+        m = 1
+    if form in ("np-float32-exact", "np-complex64-exact"):
+        m = 4 if 2 ** n >= 4 else 1
+    m = max(min(m, 2 ** n), min_m)
+    keys = [format(int(k), f"0{n}b") for k in r.choice(2 ** n, size=m, replace=False)]       # insertion order: not sorted
+    if form == "keys-descending":
+        keys = sorted(keys, reverse=True)
+    if hamming:
+        keys = sorted(keys, key=lambda k: k.count("1"))         # CVO-QRAM's contract; ties keep the drawn order
+    hv = _dv_unit(r.normal(size=m) + 1j * r.normal(size=m))
+    rv = r.normal(size=m)
+    rv = np.where(np.abs(rv) < 0.1, 0.3, rv)
+    rv = rv / np.linalg.norm(rv)
+    if m >= 2:
+        rv[0] = -abs(rv[0])
+    if form == "int-one":
+        vals = [1]
+    elif form == "negint-one":
+        vals = [-1]
+    elif form == "np-int64-one":
+        vals = [np.int64(1)]
+    elif form == "single-one-phase-i":
+        vals = [1j]
+    elif form == "pyfloat-signed":
+        vals = [float(x) for x in rv]
+    elif form in ("pycomplex", "keys-descending"):
+        vals = [complex(x) for x in hv]
+    elif form == "np-float64":
+        vals = [np.float64(x) for x in rv]
+    elif form == "np-complex128":
+        vals = [np.complex128(x) for x in hv]
+    elif form == "np-float32-exact":
+        vals = [np.float32(-0.5 if i == 0 else 0.5) for i in range(m)] if m == 4 else [np.float32(-1.0)]
+    elif form == "np-complex64-exact":
+        vals = [np.complex64(0.5 * quarter[(i + 1) % 4]) for i in range(m)] if m == 4 else [np.complex64(-1j)]
+    elif form == "np-float32-generic":
+        vals = [np.float32(x) for x in rv]
+    elif form == "complex-zero-imag":
+        vals = [complex(x, 0.0) for x in rv]
+    elif form == "negzero-imag":
+        vals = [complex(x, -0.0) for x in rv]
+    elif form == "all-negative":
+        vals = [-abs(float(x)) for x in rv]
+    elif form == "imag":
+        vals = [complex(0.0, float(x)) for x in rv]
+    elif form == "head-tail":
+        t = np.exp(r.uniform(np.log(3e-4), np.log(3e-3), size=m)) * np.exp(1j * r.uniform(0, 2 * np.pi, size=m))
+        t[int(r.integers(m))] = np.exp(1j * r.uniform(0, 2 * np.pi))
+        vals = [complex(x) for x in _dv_unit(t)]
+    elif form == "equal-moduli-phases":
+        vals = [complex(quarter[int(r.integers(4))]) / math.sqrt(m) for _ in range(m)]
+    elif form == "repeated":
+        a = complex(r.normal(), r.normal())
+        b = complex(r.normal(), r.normal())
+        t = _dv_unit([a if i % 2 == 0 else b for i in range(m)])
+        vals = [complex(x) for x in t]
+    elif form == "mixed-value-types":
+        # one python float, one numpy float64 (negative), the rest python complex / numpy complex128: same moduli as hv
+        t = [complex(x) for x in hv]
+        vals = [float(abs(t[0]))] + ([np.float64(-abs(t[1]))] if m >= 2 else []) + \
+               [np.complex128(x) if i % 2 else x for i, x in enumerate(t[2:])]
+    else:
+        raise KeyError(form)
+    return dict(zip(keys, vals))
+
+
+def dv_fn(form, n, m, r):
+    """FnPointsInitialize: dict binary string -> integer output."""
+    if form == "single-point":
+        m = 1
+    m = max(1, min(m, 2 ** n))
+    keys = [format(int(k), f"0{n}b") for k in r.choice(2 ** n, size=m, replace=False)]
+    if form == "keys-descending":
+        keys = sorted(keys, reverse=True)
+    outs = [int(r.integers(3)) for _ in range(m)]
+    if form == "all-equal-outputs":
+        outs = [1] * m
+    if form == "np-int64":
+        outs = [np.int64(o) for o in outs]
+    if form == "np-int32":
+        outs = [np.int32(o) for o in outs]
+    return dict(zip(keys, outs))
+
+
+def dv_canon(raw):
+    """The complex128 copy of the same numbers (what every form of the same input must be equivalent to)."""
+    if isinstance(raw, dict):
+        return {k: complex(v) for k, v in raw.items()}
+    return np.array([complex(x) for x in raw], dtype=np.complex128)
+
+
+def dv_parent(raw):
+    """The array a view was taken from (snapshotted with the input: an in-place step would write through the view)."""
+    return raw.base if isinstance(raw, np.ndarray) and raw.base is not None else None
+
+
+def dv_is_canon(raw):
+    if isinstance(raw, dict):
+        return all(type(v) is complex for v in raw.values())
+    return isinstance(raw, np.ndarray) and raw.dtype == np.complex128
+
+
+def dv_width(name, n, opt, m=0, k=0):
+    o = opt or {}
+    if name == "BdspInitialize":
+        s = o.get("split") or (n + 1) // 2
+        return (s + 1) * 2 ** (n - s) - 1
+    if name == "DcspInitialize":
+        return 2 ** n - 1
+    if name == "BlackBoxInitialize":
+        return n + 1
+    if name == "MixedInitialize":
+        return n + clog2(k)
+    if name == "PivotInitialize":
+        return n + (max(clog2(m) - 1, 0) if o.get("aux") else 0)
+    if name == "CvoqramInitialize":
+        return n + 1 + (n - 1 if o.get("with_aux") in (None, True) else 0)
+    if name == "FnPointsInitialize":
+        return 2 * n + 1
+    return n
+
+
+def dv_options(name, n, m=0):
+    """-> (options that keep the prepared state, options that change the state or the operator).  None / {} / one key /
+    all keys at once."""
+    if name == "TopDownInitialize":
+        return [None, {}, {"global_phase": True}, {"lib": "qclib"}], \
+               [{"global_phase": False}, {"lib": "qiskit"}, {"global_phase": False, "lib": "qiskit"}]
+    if name == "LowRankInitialize":
+        part = [n - 1] if n >= 2 else [0]
+        keep = [None, {}, {"iso_scheme": "knill"}, {"unitary_scheme": "csd"}, {"svd": "regular"}, {"partition": part},
+                {"lr": 0, "partition": part, "iso_scheme": "knill", "unitary_scheme": "csd", "svd": "regular"}]
+        return keep, [{"lr": 1}, {"partition": part}, {"lr": 1, "partition": part, "iso_scheme": "knill",
+                                                       "unitary_scheme": "csd", "svd": "regular"}]
+    if name in ("UCGInitialize", "UCGEInitialize"):
+        # all of these prepare the requested state exactly - in column |target_state> of the operator (the exact-state check
+        # reads that column); preserve_previous / target_state meet the structured data of sweep A on both classes (UCGE's
+        # multiplexer simplification + preserve_previous was finding `entry:UCGEInitialize:preserve_previous:*`, repaired)
+        keep = [None, {}, {"preserve_previous": True}, {"target_state": 0, "preserve_previous": True}, {"target_state": 2 ** n - 1},
+                {"target_state": 1, "preserve_previous": True}]
+        return keep, [{"target_state": 2 ** n - 1}, {"preserve_previous": True}, {"target_state": 1, "preserve_previous": True}]
+    if name == "IsometryInitialize":
+        return [None, {}, {"scheme": "csd"}] + ([{"scheme": "knill"}] if n >= 2 else []), \
+               [{"scheme": "csd"}] + ([{"scheme": "knill"}] if n >= 2 else [])
+    if name == "BaaLowRankInitialize":
+        full = {"strategy": "brute_force", "max_combination_size": 1, "use_low_rank": True, "iso_scheme": "knill",
+                "unitary_scheme": "csd"}
+        return [None, {}, {"strategy": "brute_force"}, {"use_low_rank": True}, {"max_combination_size": 1}, dict(full)], \
+               [{"max_fidelity_loss": 0.3}, dict(full, max_fidelity_loss=0.3)]
+    if name == "BdspInitialize":
+        keep = [None, {}, {"split": 1}] + ([{"split": n}] if n >= 2 else [])
+        return keep, ([{"split": n}] if n >= 2 else [{"split": 1}]) + ([{"split": 1}] if n >= 3 else [])
+    if name == "PivotInitialize":
+        return [None, {}, {"aux": False}] + ([{"aux": True}] if m >= 3 else []), [{"aux": True}] if m >= 3 else [{"aux": False}]
+    if name == "CvoqramInitialize":
+        return [None, {}, {"with_aux": True}, {"with_aux": False}, {"with_aux": False, "mcg_method": "barenco"}], \
+               [{"with_aux": False}, {"with_aux": False, "mcg_method": "qiskit"}]
+    if name == "MixedInitialize":
+        return [None, {}, {"iso_scheme": "knill"}, {"svd": "regular", "unitary_scheme": "csd"}], \
+               [{"lr": 1}, {"partition": [0]}, {"lr": 1, "partition": [0], "iso_scheme": "knill", "unitary_scheme": "csd",
+                                                 "svd": "regular"}]
+    return [None], []
+
+
+def dv_inputs(case):
+    """-> (class, positional data (raw), keyword arguments of the class-level construction, keyword arguments of the static
+    helper).  Deterministic in the case; every object is freshly built (owned by the caller of this function)."""
+    name, n, form = case["cls"], case["n"], case["form"]
+    r = _rng(case["seed"])
+    spec = REG[name]
+    kw, skw = {}, {}
+    if name == "MixedInitialize":
+        k = case.get("k", 2)
+        ens = [dv_dense(form, n, r) for _ in range(k)]
+        if case.get("stack") and all(isinstance(e, np.ndarray) for e in ens):
+            ens = np.stack(ens)                                   # one 2-D array instead of a list of vectors
+        raw = ens
+        pr = case.get("probs")
+        if pr:
+            p = r.uniform(0.2, 1.0, size=k)
+            p = p / p.sum()
+            p[-1] = 1.0 - float(sum(p[:-1]))
+            p = {"list": lambda: [float(x) for x in p], "tuple": lambda: tuple(float(x) for x in p),
+                 "nd": lambda: np.array(p), "npscalars": lambda: [np.float64(x) for x in p]}[pr]()
+            kw["probabilities"] = p
+            skw["probabilities"] = p
+        for key in ("reset", "classical"):
+            if key in case.get("ctor", {}):
+                kw[key] = case["ctor"][key]
+        if "initializer" in case.get("ctor", {}):
+            kw["initializer"] = REG[case["ctor"]["initializer"]].cls()
+    elif name == "FnPointsInitialize":
+        raw = dv_fn(form, n, case.get("m", 3), r)
+    elif spec.kind == "sparse":
+        raw = dv_sparse(form, n, case.get("m", 3), r, hamming=(name == "CvoqramInitialize"),
+                        min_m=(3 if (case.get("opt") or {}).get("aux") else 2) if name == "PivotInitialize" else 1)
+    else:
+        raw = dv_dense(form, n, r)
+    if name not in DV_NO_OPTS:
+        opt = copy.deepcopy(case.get("opt"))
+        if name == "FnPointsInitialize":
+            opt = {"n_output_values": int(max(int(v) for v in raw.values())) + 1 + int(case.get("nout_extra", 0))}
+        kw["opt_params"] = opt
+        skw["opt_params"] = opt
+    if case.get("label") is not None:
+        kw["label"] = case["label"]
+    return spec.cls(), raw, kw, skw
+
+
+def dv_host(regs):
+    from qiskit import QuantumCircuit, QuantumRegister
+    if isinstance(regs, int):
+        return QuantumCircuit(regs), {}
+    rs = [QuantumRegister(sz, nm) for nm, sz in regs]
+    return QuantumCircuit(*rs), {nm: reg for (nm, _), reg in zip(regs, rs)}
+
+
+def dv_qubits(host, regmap, q, style):
+    if q is None:
+        return None
+    if style in ("int", "regs-int"):
+        return list(q)
+    if style == "tuple":
+        return tuple(q)
+    if style in ("qubit", "regs-qubit"):
+        return [host.qubits[i] for i in q]
+    if style == "mixed":
+        return [host.qubits[i] if j % 2 == 0 else i for j, i in enumerate(q)]
+    if style == "register":
+        return regmap["d"]
+    if style == "reg-rev":
+        return regmap["d"][::-1]
+    if style == "reg-slice":
+        return regmap["d"][1:]
+    raise KeyError(style)
+
+
+def dv_layout(rng, w, extra, style, second=False):
+    """-> (registers of the host, ordered global qubit list, second disjoint list or None)."""
+    def split(total):
+        names = ["a", "b", "c"]
+        parts = []
+        while total > 0 and len(parts) < 2:
+            s = rng.randint(1, total - 1) if (total >= 2 and not parts) else rng.randint(1, total)     # >= 2 registers when possible
+            parts.append(s)
+            total -= s
+        if total:
+            parts.append(total)
+        return [[names[i], s] for i, s in enumerate(parts)]
+
+    if second:
+        m = 2 * w + extra
+        perm = rng.sample(range(m), 2 * w)
+        if w > 1 and perm[:w] == sorted(perm[:w]):
+            perm[:w] = perm[:w][::-1]
+        return (m if style in ("int", "tuple", "qubit", "mixed") else split(m)), perm[:w], perm[w:]
+    m = w + extra
+    if style in ("int", "tuple", "qubit", "mixed"):
+        return m, random_subset(rng, m, w), None
+    if style in ("regs-int", "regs-qubit"):
+        regs = split(m)
+        rng.shuffle(regs)                                   # creation names in another order than the circuit's
+        q = random_subset(rng, m, w)
+        for _ in range(20):                                 # at least one listed qubit outside the first register: its index
+            if len(regs) < 2 or any(x >= regs[0][1] for x in q):      # within its register differs from its index in the circuit
+                break
+            q = random_subset(rng, m, w)
+        return regs, q, None
+    dsize = w + 1 if style == "reg-slice" else w
+    rest = m - dsize
+    if rest < 0:
+        rest = 0
+    others = split(rest)
+    pos = rng.randint(1, len(others)) if others else 0      # the data register is not the first one when there are others
+    regs = others[:pos] + [["d", dsize]] + others[pos:]
+    start = sum(s for _, s in regs[:pos])
+    idx = list(range(start, start + dsize))
+    q = idx if style == "register" else (idx[::-1] if style == "reg-rev" else idx[1:])
+    return regs, q, None
+
+
+def _dv_key(case):
+    o = case.get("opt")
+    ot = "None" if o is None else ("{}" if not o else ",".join(f"{a}={o[a]}" for a in sorted(o)))
+    bits = [case["cls"], case["form"], f"n={case['n']}", f"opt={ot}", f"call={case['call']}", f"style={case.get('style')}",
+            f"host={case.get('regs')}", f"q={case.get('q')}"]
+    for k in ("k", "m", "probs", "ctor", "label", "q2"):
+        if case.get(k) is not None:
+            bits.append(f"{k}={case[k]}")
+    return ":".join(str(b) for b in bits)
+
+
+def _dv_opmat(defn):
+    """Operator of a definition, None when it contains a reset (also inside qiskit's own `initialize` instruction)."""
+    try:
+        return opmat(defn)
+    except Exception:           # QiskitError 'Cannot apply Operation: reset'
+        return None
+
+
+def _dv_to_gate(ctx, circ, who):
+    """circuit.to_gate() where qiskit can (every instruction is a Gate), else to_instruction(): the definitions are built from
+    sub-circuits converted with to_instruction(), which qiskit refuses to wrap into a Gate (its restriction, counted)."""
+    try:
+        return circ.to_gate()
+    except Exception as e:
+        ctx.count(f"diversity:to_gate:{who}:unsupported-raises-{type(e).__name__} (to_instruction used)")
+        return circ.to_instruction()
+
+
+def _dv_same(c1, c2):
+    """max abs difference of two definitions: operators, or (definitions with resets) what they do to |0..0>."""
+    if c1.num_qubits != c2.num_qubits:
+        return float("inf")
+    u1, u2 = _dv_opmat(c1), _dv_opmat(c2)
+    if u1 is not None and u2 is not None:
+        return float(np.abs(u1 - u2).max())
+    if (u1 is None) != (u2 is None):
+        return float("inf")
+    return float(np.abs(_dv_state(c1)[1] - _dv_state(c2)[1]).max())
+
+
+def _dv_state(defn):
+    """What the definition does to |0..0>: state vector (reset-free) or density matrix."""
+    u = _dv_opmat(defn)
+    if u is not None:
+        return "vec", u[:, 0]
+    from qiskit.quantum_info import DensityMatrix
+    z = np.zeros(2 ** defn.num_qubits, dtype=complex)
+    z[0] = 1
+    return "rho", DensityMatrix(z).evolve(defn).data
+
+
+def run_div(ctx, case):
+    """One (class, data form, options, call form, host layout, qubit-list style) evaluation of the diversity pass."""
+    import warnings
+    with warnings.catch_warnings():
+        warnings.simplefilter("ignore")
+        try:
+            _run_div(ctx, case)
+        except Exception as e:      # an exception of the harness itself is not a violation: note it
+            ctx.notes.append(f"harness: diversity case {_dv_key(case)[:160]} stopped with {type(e).__name__}: {str(e)[:120]}")
+            ctx.count("diversity:harness-exception")
+
+
+def _run_div(ctx, case):
+    from qiskit import QuantumCircuit
+    name, call, form = case["cls"], case["call"], case["form"]
+    key = "div:" + _dv_key(case)
+    reduced = form in DV_REDUCED
+    tol_form = 1e-3 if reduced else TOL      # brief: a silent wrong result is an error > 1e-3
+    try:
+        cls, raw, kw, skw = dv_inputs(case)
+        _, raw_ref, kw_ref, _ = dv_inputs(case)               # an independent, equal copy for the reference construction
+    except Exception as e:
+        ctx.notes.append(f"harness: diversity input {case} could not be generated: {type(e).__name__} {e}")
+        return
+    before = snap((raw, dv_parent(raw), kw))
+
+    def rejected(e, where):
+        """Reduced-precision input: the documented rejection is ValueError; anything else is a failure."""
+        if reduced and isinstance(e, ValueError):
+            ctx.ok("div-rejects:" + f"{name}:{form}", sample={"div": name, "form": form, "rejected": str(e)[:60]})
+            ctx.count(f"diversity:{form}:rejected-ValueError")
+            return True
+        ctx.fail("div-raise:" + _dv_key(case), f"{name} ({form}, n={case['n']}, opt_params={case.get('opt')}) raised "
+                 f"{type(e).__name__} during {where}: {str(e)[:160]}", case)
+        return True
+
+    # ---- the class-level construction from an equal copy of the same input: reference operator
+    try:
+        ref = cls(raw_ref, **kw_ref)
+        w = ref.num_qubits
+        ref_def = ref.definition
+    except Exception as e:
+        rejected(e, "the class-level construction")
+        return
+    if ref_def.num_qubits != w:
+        ctx.fail("div-width:" + _dv_key(case), f"{name}: declared {w}, definition {ref_def.num_qubits}", case)
+        return
+    u = _dv_opmat(ref_def)
+    unitary_def = u is not None
+
+    # ---- (1) the FORM: same state as from the complex128 copy of the same numbers; exact classes: the numbers themselves
+    if name == "MixedInitialize" or not dv_is_canon(raw_ref):
+        try:
+            if name == "MixedInitialize":
+                can_in = [dv_canon(e) for e in raw_ref]
+            elif name == "FnPointsInitialize":
+                can_in = {k_: int(v) for k_, v in raw_ref.items()}
+            else:
+                can_in = dv_canon(raw_ref)
+            if reduced:
+                # the up-cast numbers are off the unit norm by ~1e-8 (accepted in single-precision arithmetic, rejected in
+                # double): the reference is the normalised up-cast input, compared to 1e-5
+                if name == "MixedInitialize":
+                    can_in = [v_ / np.linalg.norm(v_) for v_ in can_in]
+                elif isinstance(can_in, dict):
+                    nrm = math.sqrt(sum(abs(v_) ** 2 for v_ in can_in.values()))
+                    can_in = {k_: v_ / nrm for k_, v_ in can_in.items()}
+                else:
+                    can_in = can_in / np.linalg.norm(can_in)
+            kind_c, st_c = _dv_state(cls(can_in, **copy.deepcopy(kw_ref)).definition)
+            kind_r, st_r = ("vec", u[:, 0]) if unitary_def else _dv_state(ref_def)
+            e_form = float(np.abs(st_c - st_r).max()) if kind_c == kind_r and st_c.shape == st_r.shape else float("inf")
+        except Exception as e:
+            ctx.fail("div-form-raise:" + f"{name}:{form}:n={case['n']}", f"{name}: the complex128 copy of a {form} input raised "
+                     f"{type(e).__name__}: {str(e)[:120]} although the {form} input itself builds", case)
+            return
+        if e_form > tol_form:
+            ctx.fail("div-form:" + f"{name}:{form}:n={case['n']}:opt={case.get('opt')}",
+                     f"{name}: the state prepared from a {form} input differs by {e_form:.3e} from the state prepared from the "
+                     f"complex128 copy of the same numbers (opt_params={case.get('opt')})", case)
+            return
+    spec = REG[name]
+    if spec.exact and isinstance(spec, Dense) and unitary_def and not reduced:
+        # sweep A only hands state-preserving options (`exact_state`); elsewhere the class's own rule decides
+        req = dv_canon(raw_ref) if case.get("exact_state") else spec.requested([dv_canon(raw_ref)], {"opt_params": case.get("opt")})
+        if req is not None:
+            tcol = int((case.get("opt") or {}).get("target_state") or 0) if name in ("UCGInitialize", "UCGEInitialize") else 0
+            e_req = float(np.abs(u[:, tcol] - req).max())
+            if e_req > TOL:
+                ctx.fail("div-requested:" + f"{name}:{form}:n={case['n']}:opt={case.get('opt')}",
+                         f"{name}: the state prepared from a {form} input differs from the input by {e_req:.3e}", case)
+                return
+    if name == "MixedInitialize" and not reduced and "lr" not in (case.get("opt") or {}):
+        # the data register (last n gate qubits) carries sum_i p_i |psi_i><psi_i|
+        from qiskit.quantum_info import partial_trace
+        kind_r, st_r = _dv_state(ref_def)
+        rho = np.outer(st_r, st_r.conj()) if kind_r == "vec" else st_r
+        nctrl = w - case["n"]
+        red = partial_trace(rho, list(range(nctrl))).data if nctrl else rho
+        vs = [dv_canon(e) for e in raw_ref]
+        ps = kw_ref.get("probabilities")
+        ps = [1 / len(vs)] * len(vs) if ps is None else [float(x) for x in ps]
+        exp = sum(p_ * np.outer(v_, v_.conj()) for p_, v_ in zip(ps, vs))
+        e_mix = float(np.abs(red - exp).max())
+        if e_mix > TOL:
+            ctx.fail("div-mixed-rho:" + _dv_key(case), f"MixedInitialize: reduced state of the data register differs from "
+                     f"sum_i p_i |psi_i><psi_i| by {e_mix:.3e}", case)
+            return
+
+    # ---- (2) the CALL FORM on the host
+    if call == "reuse-opts":
+        _dv_reuse(ctx, case, key, cls, raw, kw)
+        if snap((raw, dv_parent(raw))) != snap((raw_ref, dv_parent(raw_ref))):
+            ctx.fail("div-alias:" + _dv_key(case), f"{name}: the caller's data was modified (call form {call})", case)
+        return
+    host, regmap = dv_host(case["regs"])
+    m = host.num_qubits
+    q, q2 = case["q"], case.get("q2")
+    style = case.get("style", "int")
+    seq = [q]                                                  # qubit lists the reference operator is embedded on, in order
+    ident = False
+    extra_defs = []
+    try:
+        qq = dv_qubits(host, regmap, q, style) if call != "init-none" else None
+        qq2 = dv_qubits(host, regmap, q2, "int" if style.startswith("reg") and not style.startswith("regs") else style) if q2 else None
+        if call == "init":
+            cls.initialize(host, raw, qubits=qq, **skw)
+        elif call == "init-none":
+            cls.initialize(host, raw, **skw)
+        elif call == "init-pos":
+            pos = [qq] + ([skw["opt_params"]] if "opt_params" in skw else [])
+            if "probabilities" in skw:
+                pos.append(skw["probabilities"])
+            cls.initialize(host, raw, *pos)
+        elif call == "append":
+            host.append(cls(raw, **kw), qq)
+        elif call == "compose":
+            host.compose(cls(raw, **kw).definition, qq, inplace=True)
+        elif call == "compose-gate":
+            host.compose(cls(raw, **kw), qq, inplace=True)
+        elif call == "to_gate":
+            d_ = cls(raw, **kw).definition
+            host.append(_dv_to_gate(ctx, d_, name), qq)
+        elif call == "decompose":
+            host.append(cls(raw, **kw), qq)
+            host = host.decompose()
+        elif call == "def-twice":
+            g = cls(raw, **kw)
+            extra_defs = [("definition read first", g.definition), ("definition read again", g.definition)]
+            host.append(g, qq)
+        elif call == "inv-inv":
+            g = cls(raw, **kw)
+            gi = g.inverse().inverse()
+            if not (isinstance(gi.label, str) and gi.label == (g.label or "") + "_dg_dg"):
+                ctx.fail("div-label:" + _dv_key(case), f"{name}.inverse().inverse(): label {gi.label!r}, gate label {g.label!r}", case)
+                return
+            host.append(gi, qq)
+        elif call == "gate-inv":
+            g = cls(raw, **kw)
+            host.append(g, qq)
+            host.append(g.inverse(), qq)
+            ident = True
+        elif call == "inv-gate":
+            g = cls(raw, **kw)
+            host.append(g.inverse(), qq)
+            host.append(g, qq)
+            ident = True
+        elif call == "deepcopy":
+            g = cls(raw, **kw)
+            c = copy.deepcopy(g)                               # before any definition exists
+            host.append(c, qq)
+            extra_defs = [("original after deepcopy", g.definition), ("deep copy", c.definition)]
+        elif call == "copy-first":
+            g = cls(raw, **kw)
+            c = g.copy()                                       # before any definition exists
+            host.append(g, qq)
+            if qq2 is not None:
+                host.append(c, qq2)
+                seq = [q, q2]
+            extra_defs = [("copy taken before the definition was built", c.definition), ("original", g.definition)]
+        elif call == "twice":
+            g = cls(raw, **kw)
+            host.append(g, qq)
+            host.append(g, qq2)
+            seq = [q, q2]
+        else:
+            raise KeyError(call)
+        if call in ("append", "deepcopy", "copy-first", "twice", "def-twice") and case.get("label") is not None:
+            lab = host.data[0].operation.label
+            if lab != case["label"]:
+                ctx.fail("div-label:" + _dv_key(case), f"{name}(..., label={case['label']!r}) has label {lab!r}", case)
+                return
+    except Exception as e:
+        rejected(e, f"call form {call} with qubits {q} ({style}) on host {case['regs']}")
+        return
+    if call == "init-none":
+        seq = [list(range(m))]
+    r = _rng(case["seed"] + 23)
+    try:
+        if unitary_def:
+            psi0 = product_state(m, spectator_states(r, m, [x for s_ in seq for x in s_]))
+            psi1 = r.normal(size=2 ** m) + 1j * r.normal(size=2 ** m)
+            psi1 = psi1 / np.linalg.norm(psi1)
+            uh = opmat(host)
+            exp0, exp1 = psi0, psi1
+            if not ident:
+                for s_ in seq:
+                    exp0, exp1 = apply_local(exp0, u, s_, m), apply_local(exp1, u, s_, m)
+            worst = max(float(np.abs(uh @ psi0 - exp0).max()), float(np.abs(uh @ psi1 - exp1).max()))
+        else:
+            # definition with resets: qiskit's compose of the reference definition is the (trusted) embedding; the input is a
+            # Haar state of the WHOLE host (a reset-free gate in place of one with resets acts differently on it)
+            from qiskit.quantum_info import DensityMatrix
+            psi1 = r.normal(size=2 ** m) + 1j * r.normal(size=2 ** m)
+            psi1 = psi1 / np.linalg.norm(psi1)
+            loc = QuantumCircuit(m)
+            for s_ in seq:
+                loc.compose(ref_def, qubits=s_, inplace=True)
+            worst = float(np.abs(DensityMatrix(psi1).evolve(host).data - DensityMatrix(psi1).evolve(loc).data).max())
+        for what, d_ in extra_defs:
+            e_ = _dv_same(d_, ref_def)
+            if e_ > TOL:
+                ctx.fail("div-copy:" + f"{name}:{call}:{what}", f"{name}, call form {call}: {what} differs from the class-level "
+                         f"construction by {e_:.3e}", case)
+                return
+    except Exception as e:
+        ctx.fail("div-eval:" + _dv_key(case), f"{name} placed via {call}: the host cannot be evaluated: {type(e).__name__}: "
+                 f"{str(e)[:160]}", case)
+        return
+    if snap((raw, dv_parent(raw), kw)) != before:
+        ctx.fail("div-alias:" + _dv_key(case), f"{name}: the caller's {form} data / options were modified (call form {call})", case)
+        return
+    if worst > (tol_form if reduced else TOL):
+        ctx.fail("div-place:" + _dv_key(case), f"{name} ({form}, opt_params={case.get('opt')}) via {call} on qubits {seq} "
+                 f"({style}) of host {case['regs']}: differs from the class-level construction with the same keywords embedded "
+                 f"on those qubits in that order (identity elsewhere) by {worst:.3e}", case)
+        return
+    ctx.ok(key, nontrivial=True, sample={"div": name, "form": form, "call": call, "style": style, "q": q, "host": case["regs"],
+                                         "opt": case.get("opt"), "worst": worst})
+    ctx.count("diversity:form:" + form)
+    ctx.count("diversity:call:" + call)
+    ctx.count("diversity:qubits:" + (style if call != "init-none" else "None"))
+    ctx.count("diversity:size:" + f"{name}:n={case['n']}")
+    o = case.get("opt")
+    ctx.count("diversity:options:" + ("None" if o is None else "{}" if not o else "one key" if len(o) == 1 else "several keys"))
+    if case.get("visible"):
+        # the option is meant to change the operator: confirm that a dropped option WOULD be seen
+        try:
+            kd = {k_: v for k_, v in kw_ref.items() if k_ not in case["visible"]}
+            d0 = cls(dv_inputs(case)[1], **kd)
+            k0, s0 = _dv_state(d0.definition)
+            vis = d0.num_qubits != w or (k0 == "vec") != unitary_def or \
+                (unitary_def and float(np.abs(opmat(d0.definition) - u).max()) > 1e-3) or \
+                (not unitary_def and float(np.abs(s0 - _dv_state(ref_def)[1]).max()) > 1e-3)
+        except Exception:
+            vis = True
+        ctx.count("diversity:keyword-visible" if vis else "diversity:keyword-invisible-at-this-size")
+
+
+def _dv_reuse(ctx, case, key, cls, raw, kw):
+    """The SAME opt_params dict object for consecutive constructions, its contents changed in between: every gate is the one
+    of the contents at ITS construction (definition read before the dict changes), and the library never writes the dict."""
+    name = case["cls"]
+    o1, o2 = copy.deepcopy(case.get("opt") or {}), copy.deepcopy(case.get("opt2") or {})
+    other = {k_: v for k_, v in kw.items() if k_ != "opt_params"}
+    live = copy.deepcopy(o1)
+    try:
+        g1 = cls(raw, opt_params=live, **other)
+        d1 = g1.definition
+        s1 = snap(live)
+        live.clear()
+        live.update(copy.deepcopy(o2))
+        g2 = cls(raw, opt_params=live, **other)
+        d2 = g2.definition
+        s2 = snap(live)
+        live.clear()
+        live.update(copy.deepcopy(o1))
+        g3 = cls(raw, opt_params=live, **other)
+        d3 = g3.definition
+        s3 = snap(live)
+        r1 = cls(dv_inputs(case)[1], opt_params=copy.deepcopy(o1), **other).definition
+        r2 = cls(dv_inputs(case)[1], opt_params=copy.deepcopy(o2), **other).definition
+        # ... and through the static helper: the dict now holds o1; two calls with o2 / o1 written into the same object
+        from qiskit import QuantumCircuit
+        skw = {k_: v for k_, v in other.items() if k_ == "probabilities"}
+        live.clear()
+        live.update(copy.deepcopy(o2))
+        h2 = QuantumCircuit(r2.num_qubits)
+        cls.initialize(h2, raw, qubits=list(range(r2.num_qubits))[::-1], opt_params=live, **skw)
+        dh2 = h2.data[0].operation.definition
+        s4 = snap(live)
+        live.clear()
+        live.update(copy.deepcopy(o1))
+        h1 = QuantumCircuit(r1.num_qubits)
+        cls.initialize(h1, raw, opt_params=live, **skw)
+        dh1 = h1.data[0].operation.definition
+        s5 = snap(live)
+    except Exception as e:
+        ctx.fail("div-raise:" + _dv_key(case), f"{name}: reusing one opt_params dict ({o1} -> {o2} -> {o1}) raised "
+                 f"{type(e).__name__}: {str(e)[:160]}", case)
+        return
+    if (s1, s2, s3, s4, s5) != (snap(o1), snap(o2), snap(o1), snap(o2), snap(o1)):
+        ctx.fail("div-alias:" + _dv_key(case), f"{name}: the caller's opt_params dict was modified by the constructor / definition", case)
+        return
+    static_ok = "reset" not in other and "classical" not in other and "initializer" not in other and "label" not in other
+    errs = [_dv_same(d1, r1), _dv_same(d2, r2), _dv_same(d3, r1), _dv_same(g1.definition, r1)] + \
+           ([_dv_same(dh2, r2), _dv_same(dh1, r1)] if static_ok else [])
+    if max(errs) > TOL:
+        ctx.fail("div-reuse:" + f"{name}:opt={o1}->{o2}", f"{name}: one opt_params dict reused for three constructions ({o1} -> {o2} -> "
+                 f"{o1}): gates differ from fresh constructions with equal contents by {[f'{e:.2e}' for e in errs]}", case)
+        return
+    ctx.ok(key, sample={"div": name, "call": "reuse-opts", "opt": o1, "opt2": o2})
+    ctx.count("diversity:call:reuse-opts")
+    ctx.count("diversity:keyword-visible" if _dv_same(r1, r2) > 1e-3 else "diversity:keyword-invisible-at-this-size")
+
+
+# ---- generation of the diversity cases
+
+DV_SIZES = {"TopDownInitialize": (1, 2, 3), "LowRankInitialize": (1, 2, 3), "SVDInitialize": (2, 3), "UCGInitialize": (1, 2, 3),
+            "UCGEInitialize": (1, 2, 3), "IsometryInitialize": (1, 2, 3), "BaaLowRankInitialize": (1, 2, 3),
+            "BdspInitialize": (1, 2, 3), "DcspInitialize": (1, 2), "BlackBoxInitialize": (1, 2, 3), "MixedInitialize": (1, 2),
+            "MergeInitialize": (1, 2, 3), "PivotInitialize": (1, 2, 3), "CvoqramInitialize": (1, 2, 3),
+            "FnPointsInitialize": (2, 3)}
+DV_MAX_HOST = 7
+DV_SOFT_HOST = 5
+
+
+def _dv_forms(name):
+    kind = REG[name].kind
+    if name == "MixedInitialize":
+        return DV_MIXED_FORMS
+    if name == "FnPointsInitialize":
+        return DV_FN_FORMS
+    if kind == "sparse":
+        return [f for f in DV_SPARSE_FORMS if not (name == "PivotInitialize" and f in ("int-one", "negint-one", "np-int64-one",
+                                                                                        "single-one-phase-i"))
+                and not (name == "CvoqramInitialize" and f == "keys-descending")]
+    return DV_DENSE_FORMS + ["c128-haar", "strided-view", "readonly"]
+
+
+def _dv_generic_form(name):
+    if name == "FnPointsInitialize":
+        return "py-int"
+    return "pycomplex" if REG[name].kind == "sparse" else "c128-haar"
+
+
+def _dv_case(rng, name, n, form, opt, call, style, extra, **more):
+    """Assemble one case: widths, host layout, qubit lists; adapts call form / style / host to what the class allows."""
+    case = {"kind": "div", "cls": name, "n": n, "form": form, "opt": opt, "call": call, "seed": rng.getrandbits(31)}
+    case.update(more)
+    m_ = 0
+    if name == "PivotInitialize" and form in ("np-float32-exact", "np-complex64-exact") and n == 1:
+        n = case["n"] = 2
+    if name == "MixedInitialize":
+        case.setdefault("k", 2)
+        if call in DV_NEEDS_UNITARY or (call in ("twice", "copy-first", "deepcopy", "def-twice", "append", "compose", "to_gate")
+                                        and rng.random() < 0.5):
+            case.setdefault("ctor", {})
+            case["ctor"].setdefault("reset", False)       # static initialize cannot pass it: constructor call forms only
+        if call in ("init", "init-none", "init-pos"):
+            case.pop("ctor", None)
+        if (case.get("ctor") or {}).get("classical") is False:
+            case["k"] = max(case["k"], 2)
+    elif REG[name].kind == "sparse":
+        m_ = case.setdefault("m", min(2 ** n, 3 if n >= 2 else 2))
+        if form in ("np-float32-exact", "np-complex64-exact"):
+            m_ = case["m"] = 4 if n >= 2 else 1
+        if form in ("int-one", "negint-one", "np-int64-one", "single-one-phase-i", "single-point"):
+            m_ = case["m"] = 1
+        if name == "PivotInitialize":
+            m_ = case["m"] = max(m_, 2)
+            if (opt or {}).get("aux") and (m_ < 3 or 2 ** n < 3):
+                case["opt"] = opt = {"aux": False}
+    if call in DV_NEEDS_UNITARY and (opt or {}).get("lib") == "qiskit":
+        case["call"] = call = "append"
+    w = dv_width(name, n, case["opt"], m=m_, k=case.get("k", 0))
+    if call in ("init", "init-pos", "init-none", "reuse-opts") or case.get("label") is None and rng.random() < 0.5:
+        case.pop("label", None)
+    elif "label" not in case:
+        case["label"] = "dv15"
+    if call == "reuse-opts":
+        return case
+    second = call in ("twice", "copy-first")
+    if second and 2 * w > 6:
+        second = False
+        if call == "twice":
+            case["call"] = call = "append"
+    if call == "init-none":
+        extra, style = 0, "int"
+    # dense evaluation of a host costs ~10x more from 6 qubits on: idle qubits up to a 5-qubit host (host = w, w+1, w+3 for
+    # w <= 2; w, w+1, w+2 for w = 3), one idle qubit at most above
+    base = 2 * w if second else w
+    extra = max(0, min(extra, DV_MAX_HOST - base, max(DV_SOFT_HOST - base, 1 if extra else 0)))
+    if second and style in ("register", "reg-rev", "reg-slice"):
+        style = "regs-qubit"
+    if style == "reg-slice" and extra == 0:
+        style = "reg-rev" if w > 1 else "register"
+    regs, q, q2 = dv_layout(rng, w, extra, style, second=second)
+    if call == "init-none":
+        regs, q = (w if rng.random() < 0.5 else [["b", w - w // 2]] + ([["a", w // 2]] if w // 2 else [])), list(range(w))
+    case.update(style=style, regs=regs, q=q)
+    if q2 is not None:
+        case["q2"] = q2
+    return case
+
+
+def diversity_cases(ctx):
+    rng = ctx.rng
+    cases = []
+    calls_a = [c for c in DV_CALLS if c != "reuse-opts"]
+    for name, sizes in DV_SIZES.items():
+        forms = _dv_forms(name)
+        offs = [rng.randrange(64) for _ in range(6)]
+        has_opts = name not in DV_NO_OPTS
+        # (A) every data form, rotating sizes / state-preserving options / call forms / qubit-list styles / host sizes
+        for i, form in enumerate(forms):
+            n = sizes[:2][(i + offs[0]) % 2]          # the two smallest sizes (n = 3, 4 carry generic data in the sweeps above)
+            m_ = 3 if n >= 2 else 2
+            keep, _ = dv_options(name, n, m_)
+            opt = copy.deepcopy(keep[(i + offs[1]) % len(keep)]) if has_opts else None
+            call = calls_a[(i + offs[2]) % len(calls_a)]
+            style = DV_STYLES[(i + offs[3]) % len(DV_STYLES)]
+            extra = (0, 1, 3)[(i + offs[4]) % 3]
+            more = {}
+            if name == "MixedInitialize":
+                more = {"k": 2 + (i + offs[5]) % 2, "probs": (None, "list", "tuple", "nd", "npscalars")[(i + offs[5]) % 5],
+                        "stack": bool(i % 2)}
+            if form in DV_REDUCED and call in ("gate-inv", "inv-gate"):
+                call = "append"        # identity for any gate: says nothing about the form
+            if isinstance(REG[name], Dense) and REG[name].exact:
+                more["exact_state"] = True
+            cases.append(_dv_case(rng, name, n, form, opt, call, style, extra, **more))
+        if name in ("UCGInitialize", "UCGEInitialize"):
+            # structured data (repeated / merged sibling blocks, zeros) x preserve_previous / target_state x call forms, n = 2, 3
+            j = 0
+            for form in ("uniform", "zero-interleaved", "repeated-two-values", "equal-moduli-signs", "sparse-zeros", "subtree-norm",
+                         "pylist-int-basis"):
+                for n in (2, 3):
+                    for opt in ({"preserve_previous": True}, {"target_state": 1, "preserve_previous": True},
+                                {"target_state": 2 ** n - 1}):
+                        j += 1
+                        if (j + offs[5]) % 3:
+                            continue        # a third of the 42 combinations per run (every form and option in each run)
+                        cases.append(_dv_case(rng, name, n, form, dict(opt), calls_a[(j + offs[2]) % len(calls_a)],
+                                              DV_STYLES[(j + offs[3]) % len(DV_STYLES)], (1, 0, 2)[j % 3], exact_state=True))
+        # (B) every call form on generic complex data with options that CHANGE the operator (a dropped keyword is visible)
+        gform = _dv_generic_form(name)
+        for j, call in enumerate(DV_CALLS):
+            n = sizes[-2:][1 if (j + offs[0]) % 4 == 0 else 0] if len(sizes) >= 2 else sizes[-1]      # mostly n = 2, every 4th n = 3
+            if name in ("BdspInitialize", "FnPointsInitialize") and call in ("twice", "copy-first"):
+                n = sizes[0]
+            m_ = 3 if n >= 2 else 2
+            keep, change = dv_options(name, n, m_)
+            opt = copy.deepcopy(change[(j + offs[1]) % len(change)]) if change else None
+            more = {"visible": ["opt_params"]} if (has_opts and name != "FnPointsInitialize") else {}
+            if name == "FnPointsInitialize":
+                more = {"nout_extra": 1 + j % 2}
+            if call == "reuse-opts":
+                if not change or name == "FnPointsInitialize":
+                    continue
+                # contents in between: the defaults ({}: always a visible difference) or another operator-changing option
+                others = [o for o in change if o != opt]
+                more["opt2"] = copy.deepcopy(others[offs[2] % len(others)]) if (others and offs[2] % 2) else {}
+            if name == "MixedInitialize":
+                more.update(k=2 + j % 2, probs=("list", None, "nd")[j % 3])
+                if call in ("init", "init-none", "init-pos"):
+                    more["probs"] = ("list", "tuple", "nd")[j % 3]
+                    more["visible"] = ["opt_params", "probabilities"]
+            cases.append(_dv_case(rng, name, n, gform, opt, call, DV_STYLES[(j + offs[3]) % len(DV_STYLES)],
+                                  (1, 3, 0)[(j + offs[4]) % 3], **more))
+        # the static helper with EVERY state- / operator-changing option, one at a time and all at once, on a permuted subset
+        n = sizes[-1] if name not in ("BdspInitialize", "FnPointsInitialize", "DcspInitialize") else sizes[min(1, len(sizes) - 1)]
+        _, change = dv_options(name, n, 3)
+        for j, opt in enumerate(change if name != "FnPointsInitialize" else []):
+            cases.append(_dv_case(rng, name, n, gform, copy.deepcopy(opt), ("init", "init-pos")[j % 2], DV_STYLES[(j + offs[5]) % len(DV_STYLES)],
+                                  (3, 1)[j % 2], visible=["opt_params"], **({"k": 2} if name == "MixedInitialize" else {})))
+        # every keyword of the static helper alone (qubits only; opt_params only is `init-none` above; both is `init` above)
+        n = sizes[min(1, len(sizes) - 1)]
+        cases.append(_dv_case(rng, name, n, gform, None, "init", "int", 3))
+        cases.append(_dv_case(rng, name, sizes[0], gform, {} if has_opts else None, "init", "regs-qubit", 1))
+        cases.append(_dv_case(rng, name, n, gform, None, "init-pos", "reg-rev", 2))        # Qubit objects of a register that is not the first
+        # every qubit-list style reaches the static helper of EVERY class in every run (the rotation above covers most)
+        mine = [c for c in cases if c["cls"] == name and c["call"] in ("init", "init-pos")]
+        for style in DV_STYLES:
+            if not any(c.get("style") == style and len(c["q"]) >= 2 and (style in ("register", "reg-slice") or c["q"] != sorted(c["q"]))
+                       for c in mine):
+                _, change = dv_options(name, n, 3)
+                opt = copy.deepcopy(change[0]) if (change and name != "FnPointsInitialize") else None
+                cases.append(_dv_case(rng, name, n, gform, opt, "init", style, 2, **({"visible": ["opt_params"]} if opt else {})))
+    # MixedInitialize: the three keywords of the static helper one at a time / pairwise / all at once, and every keyword of
+    # the constructor one at a time and all at once
+    _, mchange = dv_options("MixedInitialize", 2)
+    for call, opt, probs, extra in (("init", None, None, 1), ("init-none", mchange[0], None, 0), ("init-none", None, "list", 0),
+                                    ("init", mchange[1], None, 3), ("init", None, "nd", 1), ("init-none", mchange[2], "tuple", 0),
+                                    ("init", mchange[2], "npscalars", 1), ("init-pos", mchange[0], "list", 3)):
+        vis = (["opt_params"] if opt else []) + (["probabilities"] if probs else [])
+        cases.append(_dv_case(rng, "MixedInitialize", 2, "c128-haar", copy.deepcopy(opt), call, rng.choice(["int", "qubit", "reg-rev"]),
+                              extra, k=2, probs=probs, **({"visible": vis} if vis else {})))
+    for ctor, opt, probs, label in (({"initializer": "UCGInitialize"}, None, None, None), ({"reset": False}, None, None, None),
+                                    ({"classical": False}, None, None, None), ({}, None, None, "dv15"), ({}, None, "list", None),
+                                    ({}, {"lr": 1}, None, None),
+                                    ({"initializer": "IsometryInitialize", "reset": False, "classical": False}, {"scheme": "csd"},
+                                     "tuple", "dv15"),
+                                    ({"initializer": "TopDownInitialize", "reset": False}, {"global_phase": False}, "nd", "dv15")):
+        for call in ("append", "compose"):
+            cases.append(_dv_case(rng, "MixedInitialize", 2, "c128-haar", copy.deepcopy(opt), call, rng.choice(["int", "qubit", "regs-int"]),
+                                  rng.choice([0, 1]), k=2 + (1 if "classical" not in ctor else 0), probs=probs, ctor=dict(ctor),
+                                  **({"label": label} if label else {"label": None})))
+    return cases
+
+
+def diversity_probes(ctx):
+    """Forms the library does not claim to support / restrictions of a keyword, observed on the unchanged tree (counted, noted,
+    not judged: the property is about placement, width, inverse, purity - not about which initializer MixedInitialize accepts)."""
+    import warnings
+    from qclib.state_preparation import MixedInitialize
+    v = [np.array([0.6, 0.8j, 0, 0]), np.array([0, 0, 1.0, 0])]
+    seen = []
+    for iname, classical in (("TopDownInitialize", False), ("SVDInitialize", True), ("DcspInitialize", True), ("BdspInitialize", True)):
+        try:
+            with warnings.catch_warnings():
+                warnings.simplefilter("ignore")
+                MixedInitialize(copy.deepcopy(v), initializer=REG[iname].cls(), classical=classical, reset=False).definition
+            seen.append(f"{iname}/classical={classical}: builds")
+            ctx.count(f"diversity:mixed-initializer:{iname}:builds")
+        except Exception as e:
+            seen.append(f"{iname}/classical={classical}: {type(e).__name__}")
+            ctx.count(f"diversity:mixed-initializer:{iname}:unsupported-form-raises-{type(e).__name__}")
+    ctx.notes.append("MixedInitialize(initializer=...) restrictions (not judged by C15): " + "; ".join(seen))
+    from qclib.isometry import decompose
+    for tag, arg in (("nested-list", [[1, 0], [0, 1]]), ("tuple", ((0, 1), (1, 0)))):
+        try:
+            decompose(arg)
+            ctx.count(f"diversity:isometry.decompose:{tag}:accepted")
+        except Exception as e:
+            ctx.count(f"diversity:isometry.decompose:{tag}:unsupported-form-raises-{type(e).__name__}")
+
+
+def diversity_findings(ctx):
+    """Forms that FAILED on the unchanged tree when the diversity pass was written (fixed inputs, narrow keys).  All three have been
+    repaired in /repo since (5861bbd, f5f5bbb, 3935593): the probes stay as regression probes (ok now, fail if the behaviour
+    returns), and the combinations are back in the rotating sweeps under the normal oracle."""
+    import warnings
+    from qiskit import QuantumCircuit
+    from qclib.state_preparation import MixedInitialize
+    from qclib.unitary import unitary
+    # (1) MixedInitialize documents `params: list of list of complex`; with the default classical purification the definition
+    #     multiplies each state by a numpy scalar (`np.sqrt(prob) * state_vector`): TypeError for Python lists / tuples
+    for tag, ens in (("lists", [[0.6, 0.8], [1, 0]]), ("tuples", [(0.6, 0.8j), (0.0, 1.0)])):
+        key = f"entry:MixedInitialize:ensemble-of-python-{tag}:classical-purification"
+        ctx.count("diversity:finding-probe:mixed ensemble of python " + tag)
+        try:
+            with warnings.catch_warnings():
+                warnings.simplefilter("ignore")
+                host = QuantumCircuit(3)
+                MixedInitialize.initialize(host, copy.deepcopy(ens), qubits=[2, 0])
+                g = host.data[0].operation
+                ref = MixedInitialize([np.array(v, dtype=complex) for v in ens])
+                err = _dv_same(g.definition, ref.definition)
+            if err > TOL:
+                ctx.fail(key, f"MixedInitialize(ensemble of Python {tag}) differs from the ndarray ensemble by {err:.3e}", {"kind": "dprobe"})
+            else:
+                ctx.ok(key)
+        except Exception as e:
+            ctx.fail(key, f"MixedInitialize.initialize(circuit, {ens}, qubits=[2, 0]); .definition raised {type(e).__name__}: "
+                          f"{str(e)[:120]} (documented input: list of list of complex; a list of ndarrays builds; so does "
+                          f"classical=False)", {"kind": "dprobe", "call": f"MixedInitialize({ens}).definition"})
+    # (3) UCGEInitialize(preserve_previous=True) on a state whose multiplexer is simplified (repeated sibling blocks): the gate
+    #     is unitary but does not prepare the state (UCGInitialize with the same options does)
+    from qclib.state_preparation import UCGEInitialize
+    for tag, vec, opt in (("uniform-n=2", [0.5, 0.5, 0.5, 0.5], {"preserve_previous": True}),
+                          ("repeated-pairs-n=2", [0.6, 0, 0.8, 0], {"target_state": 1, "preserve_previous": True})):
+        key = f"entry:UCGEInitialize:preserve_previous:{tag}"
+        ctx.count("diversity:finding-probe:UCGE preserve_previous on repeated values")
+        try:
+            with warnings.catch_warnings():
+                warnings.simplefilter("ignore")
+                host = QuantumCircuit(3)
+                UCGEInitialize.initialize(host, list(vec), qubits=[2, 0], opt_params=dict(opt))
+                col = opmat(host)[:, opt.get("target_state", 0) and 4]        # |target> on qubits (2, 0): bit 0 of target -> qubit 2
+                exp = apply_local(np.eye(8)[:, 0], np.outer(np.array(vec, dtype=complex), [1, 0, 0, 0]), [2, 0], 3)
+                err = float(np.abs(col - exp).max())
+            if err > TOL:
+                ctx.fail(key, f"UCGEInitialize.initialize(circuit, {vec}, qubits=[2, 0], opt_params={opt}): column |target_state> differs "
+                              f"from the requested state by {err:.3e} (UCGInitialize with the same arguments: 1e-16)",
+                         {"kind": "dprobe", "call": f"UCGEInitialize({vec}, opt_params={opt}).definition"})
+            else:
+                ctx.ok(key)
+        except Exception as e:
+            ctx.fail(key, f"UCGEInitialize({vec}, opt_params={opt}) raised {type(e).__name__}: {str(e)[:120]}", {"kind": "dprobe"})
+    # (2) unitary(): an EXACTLY unitary 8x8 matrix with entries 0, +-1/2 (exactly representable) in float32 / complex64:
+    #     np.asarray keeps the single-precision dtype, the cosine-sine decomposition runs in single precision and its blocks are
+    #     then rejected as non-unitary (4x4 and the float64 / complex128 copies are decomposed to 1e-15)
+    h2 = np.kron(np.array([[1.0, 1.0], [1.0, -1.0]]), np.array([[1.0, 1.0], [1.0, -1.0]])) * 0.5
+    u8 = np.kron(h2, np.array([[0.0, 1.0], [-1.0, 0.0]]))
+    rows = [(dt, mat, scheme) for dt, mat in (("float32", u8.astype(np.float32)), ("complex64", (1j * u8).astype(np.complex64)))
+            for scheme in ("qsd", "csd")]
+    rows.append(("float32", h2.astype(np.float32), "qr"))          # 4x4, no zero entry: the QR scheme keeps the dtype as well
+    for dt, mat, scheme in rows:
+        key = f"entry:unitary:single-precision-exact-{len(mat)}x{len(mat)}:{dt}:{scheme}"
+        ctx.count("diversity:finding-probe:unitary single precision 8x8")
+        try:
+            with warnings.catch_warnings():
+                warnings.simplefilter("ignore")
+                err = float(np.abs(opmat(unitary(mat.copy(), scheme)) - mat.astype(complex)).max())
+            if err > 1e-5:
+                ctx.fail(key, f"unitary({dt} {len(mat)}x{len(mat)} with entries 0, +-1/2, '{scheme}') is off by {err:.3e}", {"kind": "dprobe"})
+            else:
+                ctx.ok(key)
+        except Exception as e:
+            ctx.fail(key, f"unitary(exactly unitary {dt} {len(mat)}x{len(mat)} matrix with entries 0, +-1/2, '{scheme}') raised {type(e).__name__}: "
+                          f"{str(e)[:100]} (the float64 / complex128 copy of the same matrix is decomposed to 1e-15)",
+                     {"kind": "dprobe", "call": (f"unitary(np.kron(HxH/2, [[0,1],[-1,0]]).astype({dt}), '{scheme}')" if len(mat) == 8
+                                                 else f"unitary((HxH/2).astype({dt}), '{scheme}')")})
+
+
+# ---- unitary() / isometry.decompose(): matrix forms, keywords, use of the returned circuit on a host
+
+DV_MATRIX_FORMS = ["int-perm-nested-list", "int-perm-tuple", "int64-perm", "int64-signed-perm", "f64-orthogonal", "c128-zero-imag",
+                   "nested-list-complex", "f32-exact", "c64-exact", "f32-generic", "c64-generic", "minus-identity", "i-identity",
+                   "diag-quarter-phases", "negzero-signed-perm", "phase-i-haar", "view-of-larger", "readonly", "fortran-real"]
+DV_MATRIX_REDUCED = ("f32-generic", "c64-generic")
+
+
+def dv_matrix(form, n, cols, r):
+    """-> (raw, parent or None): a unitary (cols = rows) or an isometry with `cols` columns in the given form."""
+    d = 2 ** n
+    had = np.array([[1.0]])
+    for _ in range(2 * (n // 2)):
+        had = np.kron(had, np.array([[1.0, 1.0], [1.0, -1.0]])) * (1 / math.sqrt(2))
+    had = np.round(had * 2 ** (n // 2)) / 2 ** (n // 2)           # entries +-2^-(n//2): exact in float32
+    if n % 2:
+        had = np.kron(had, np.array([[0.0, 1.0], [-1.0, 0.0]]))
+    perm = np.eye(d, dtype=np.int64)[r.permutation(d)]
+    signs = r.choice([-1, 1], size=d)
+    signs[0] = -1
+    hq = haar_unitary(r, d)
+    q, rr = np.linalg.qr(r.normal(size=(d, d)))
+    orth = q * np.sign(np.diag(rr))
+    quarter = np.array([1, -1, 1j, -1j])
+    parent = None
+    if form == "int-perm-nested-list":
+        raw = [[int(x) for x in row[:cols]] for row in perm]
+    elif form == "int-perm-tuple":
+        raw = tuple(tuple(int(x) for x in row[:cols]) for row in perm)
+    elif form == "int64-perm":
+        raw = perm[:, :cols].copy()
+    elif form == "int64-signed-perm":
+        raw = (perm * signs)[:, :cols].copy()
+    elif form == "f64-orthogonal":
+        raw = np.ascontiguousarray(orth[:, :cols])
+    elif form == "c128-zero-imag":
+        raw = np.ascontiguousarray(orth[:, :cols]).astype(complex)
+    elif form == "nested-list-complex":
+        raw = [[complex(x) for x in row[:cols]] for row in hq]
+    elif form == "f32-exact":
+        raw = np.ascontiguousarray(had[:, :cols]).astype(np.float32)
+    elif form == "c64-exact":
+        raw = np.ascontiguousarray((had * quarter[r.integers(4, size=d)][None, :])[:, :cols]).astype(np.complex64)
+    elif form == "f32-generic":
+        raw = np.ascontiguousarray(orth[:, :cols]).astype(np.float32)
+    elif form == "c64-generic":
+        raw = np.ascontiguousarray(hq[:, :cols]).astype(np.complex64)
+    elif form == "minus-identity":
+        raw = -np.eye(d)[:, :cols]
+    elif form == "i-identity":
+        raw = 1j * np.eye(d)[:, :cols]
+    elif form == "diag-quarter-phases":
+        raw = np.diag(quarter[r.integers(4, size=d)])[:, :cols].copy()
+    elif form == "negzero-signed-perm":
+        raw = np.where(perm == 0, -0.0, (perm * signs).astype(float))[:, :cols].copy()
+    elif form == "phase-i-haar":
+        raw = np.ascontiguousarray(1j * hq[:, :cols])
+    elif form == "view-of-larger":
+        parent = np.zeros((d + 1, d + 2), dtype=complex)
+        parent[...] = r.normal(size=parent.shape)
+        parent[1:, 1:d + 1] = hq
+        raw = parent[1:, 1:cols + 1]                                  # a non-contiguous view: the parent must stay as it is
+    elif form == "readonly":
+        raw = np.ascontiguousarray(hq[:, :cols])
+        raw.flags.writeable = False
+    elif form == "fortran-real":
+        raw = np.asfortranarray(orth[:, :cols])
+    else:
+        raise KeyError(form)
+    return raw, parent
+
+
+def run_divfn(ctx, case):
+    import warnings
+    with warnings.catch_warnings():
+        warnings.simplefilter("ignore")
+        try:
+            _run_divfn(ctx, case)
+        except Exception as e:
+            ctx.notes.append(f"harness: diversity case {case.get('fn')}:{case.get('form')} stopped with {type(e).__name__}: {str(e)[:120]}")
+            ctx.count("diversity:harness-exception")
+
+
+def _run_divfn(ctx, case):
+    """unitary(matrix, ...) / isometry.decompose(matrix, ...) on a matrix of a given FORM: same operator as from the complex128
+    copy (and the matrix itself where that copy gives it), caller's object (and the parent of a view) untouched, and the
+    returned circuit used via compose / to_gate / to_instruction / inverse on a permuted subset of a host."""
+    from qiskit import QuantumCircuit
+    fn, form, n = case["fn"], case["form"], case["n"]
+    r = _rng(case["seed"])
+    cols = 2 ** case.get("mcols", n) if fn == "isometry.decompose" else 2 ** n
+    raw, parent = dv_matrix(form, n, cols, r)
+    if case.get("vector"):
+        raw = np.ascontiguousarray(np.asarray(raw)[:, 0]) if not isinstance(raw, (list, tuple)) else [row[0] for row in raw]
+    canon = np.array(raw, dtype=np.complex128)
+    if form in DV_MATRIX_REDUCED:
+        # the up-cast numbers are unitary only to ~1e-7 (rejected in double precision): reference = the closest isometry
+        if canon.ndim == 2:
+            su, _, svh = np.linalg.svd(canon, full_matrices=False)
+            canon = su @ svh
+        else:
+            canon = canon / np.linalg.norm(canon)
+    kw = dict(case.get("kw") or {})
+    key = f"divfn:{fn}:{form}:n={n}:cols={cols}:kw={sorted(kw.items())}:use={case['use']}:pos={bool(case.get('positional'))}"
+    reduced = form in DV_MATRIX_REDUCED
+    if fn == "unitary":
+        from qclib.unitary import unitary as f
+        order = ("decomposition", "iso", "apply_a2")
+    else:
+        from qclib.isometry import decompose as f
+        order = ("scheme",)
+
+    def call(x):
+        if case.get("positional"):
+            return f(x, *[kw[k_] for k_ in order if k_ in kw])
+        return f(x, **kw)
+    tgt = canon if canon.ndim == 2 else canon.reshape(-1, 1)
+    if fn == "unitary" and kw.get("iso"):
+        tgt = tgt[:, :tgt.shape[1] >> int(kw["iso"])]          # unitary(..., iso=k): only the first 2^(n-k) columns are meant
+    try:
+        circ_c = call(canon.copy())
+        e_can = float(np.abs(opmat(circ_c)[:, :tgt.shape[1]] - tgt).max())
+    except Exception:
+        e_can = float("inf")
+    if e_can > TOL:
+        ctx.count(f"diversity:{fn}:complex128-copy-off-or-raises (owned by C02/C03)")
+        ctx.notes.append(f"diversity: {fn}({form}, n={n}, {kw}): the complex128 copy is off by {e_can:.1e} / raises - C02/C03's domain, skipped")
+        return
+    before = snap((raw, parent, kw))
+    try:
+        circ = call(raw)
+    except Exception as e:
+        if reduced and isinstance(e, ValueError):
+            ctx.ok(f"divfn-rejects:{fn}:{form}")
+            ctx.count(f"diversity:{fn}:{form}:rejected-ValueError")
+            return
+        if isinstance(raw, (list, tuple)) and fn == "isometry.decompose":
+            ctx.count(f"diversity:{fn}:{form}:unsupported-form-raises-{type(e).__name__}")     # annotated np.ndarray
+            return
+        ctx.fail(f"divfn-raise:{fn}:{form}:n={n}:kw={sorted(kw.items())}", f"{fn}({form} {canon.shape}, {kw}) raised "
+                 f"{type(e).__name__}: {str(e)[:160]} although the complex128 copy of the same matrix is decomposed", case)
+        return
+    if snap((raw, parent, kw)) != before:
+        ctx.fail(f"divfn-alias:{fn}:{form}:n={n}", f"{fn}: the caller's {form} matrix (or the array it is a view of) was modified", case)
+        return
+    uc = opmat(circ)
+    e_raw = float(np.abs(uc[:, :tgt.shape[1]] - tgt).max())
+    if e_raw > (1e-3 if reduced else TOL):
+        ctx.fail(f"divfn-form:{fn}:{form}:n={n}:kw={sorted(kw.items())}", f"{fn}({form} {canon.shape}, {kw}): the circuit differs "
+                 f"from the matrix by {e_raw:.3e}; from the complex128 copy of the same matrix only by {e_can:.1e}", case)
+        return
+    # the returned circuit on a permuted subset of a host
+    m, q, use = case["m"], case["q"], case["use"]
+    host = QuantumCircuit(m)
+    ident = False
+    try:
+        if use == "compose":
+            host.compose(circ, [host.qubits[i] for i in q], inplace=True)
+        elif use == "to_gate":
+            host.append(_dv_to_gate(ctx, circ, fn), q)
+        elif use == "to_instruction":
+            host.append(circ.to_instruction(), tuple(q))
+        elif use == "gate-inverse":
+            g = _dv_to_gate(ctx, circ, fn)
+            host.append(g, q)
+            host.append(g.inverse(), q)
+            ident = True
+        elif use == "twice":
+            g = _dv_to_gate(ctx, circ, fn)
+            host.append(g, q)
+            host.append(g, q)
+        psi = r.normal(size=2 ** m) + 1j * r.normal(size=2 ** m)
+        psi /= np.linalg.norm(psi)
+        exp = psi if ident else apply_local(psi, uc, q, m)
+        if use == "twice":
+            exp = apply_local(exp, uc, q, m)
+        err = float(np.abs(opmat(host) @ psi - exp).max())
+    except Exception as e:
+        ctx.fail(f"divfn-use:{fn}:{use}", f"{fn}(...) used via {use} on qubits {q} of {m} raised {type(e).__name__}: {str(e)[:160]}", case)
+        return
+    if err > TOL:
+        ctx.fail(f"divfn-place:{fn}:{form}:{use}", f"{fn}(...) used via {use} on qubits {q} of {m}: differs from its own operator on "
+                 f"those wires by {err:.3e}", case)
+        return
+    ctx.ok(key, sample={"divfn": fn, "form": form, "n": n, "kw": kw, "use": use, "q": q})
+    ctx.count("diversity:matrix:" + form)
+    ctx.count(f"diversity:{fn}:use:{use}")
+    ctx.count(f"diversity:{fn}:keywords:" + ("none" if not kw else "one" if len(kw) == 1 else "all") + (":positional" if case.get("positional") else ""))
+
+
+def diversity_fn_cases(ctx):
+    rng = ctx.rng
+    cases = []
+    uses = ["compose", "to_gate", "to_instruction", "gate-inverse", "twice"]
+    o1, o2 = rng.randrange(16), rng.randrange(16)
+
+    def place(n):
+        m = n + rng.choice([1, 2])
+        return m, random_subset(rng, m, n)
+    zero_forms = ("int-perm-nested-list", "int-perm-tuple", "int64-perm", "int64-signed-perm", "minus-identity", "i-identity",
+                  "diag-quarter-phases", "negzero-signed-perm", "f32-exact", "c64-exact")
+    for i, form in enumerate(DV_MATRIX_FORMS):
+        n = (1, 2, 3)[(i + o1) % 3]
+        scheme = ("qsd", "csd", "qr")[(i + o2) % 3]
+        if scheme == "qr" and (form in zero_forms or n == 1):
+            scheme = "qsd"          # matrices with zero entries / 2x2: outside what the QR scheme takes (C02)
+        m, q = place(n)
+        cases.append({"kind": "divfn", "fn": "unitary", "form": form, "n": n, "kw": {} if scheme == "qsd" else {"decomposition": scheme},
+                      "use": uses[(i + o1) % len(uses)], "m": m, "q": q, "seed": rng.getrandbits(31)})
+        if form in ("int-perm-nested-list", "int-perm-tuple", "nested-list-complex"):
+            continue                # decompose is annotated np.ndarray (probed in diversity_probes)
+        n = (1, 2, 3)[(i + o2) % 3]
+        mc = (0, n, n // 2 if n > 1 else 0)[(i + o1) % 3]
+        scheme = ("ccd", "csd", "knill")[(i + o1 + o2) % 3]
+        if scheme == "knill" and n == 1:
+            scheme = "ccd"
+        m, q = place(n)
+        cases.append({"kind": "divfn", "fn": "isometry.decompose", "form": form, "n": n, "mcols": mc, "vector": mc == 0 and i % 2 == 0,
+                      "kw": {} if scheme == "ccd" else {"scheme": scheme}, "use": uses[(i + o2) % len(uses)], "m": m, "q": q,
+                      "seed": rng.getrandbits(31)})
+    # exactly representable single precision at the sizes where the decompositions themselves run (8x8: cosine-sine; 4x4 without
+    # zero entries: QR) - was finding `entry:unitary:single-precision-exact-*`, repaired; judged at 1e-7 like every exact form
+    for form in ("f32-exact", "c64-exact"):
+        for n, kw in ((3, {}), (3, {"decomposition": "csd"}), (2, {"decomposition": "qr"})):
+            m, q = place(n)
+            cases.append({"kind": "divfn", "fn": "unitary", "form": form, "n": n, "kw": kw, "use": rng.choice(uses), "m": m, "q": q,
+                          "seed": rng.getrandbits(31)})
+        for scheme, mc in (("csd", 2), ("ccd", 3)):
+            m, q = place(3)
+            cases.append({"kind": "divfn", "fn": "isometry.decompose", "form": form, "n": 3, "mcols": mc, "kw": {"scheme": scheme},
+                          "use": rng.choice(uses), "m": m, "q": q, "seed": rng.getrandbits(31)})
+    # every keyword alone, all at once, positionally
+    for n in (2, 3):
+        for kw, pos in (({"decomposition": "csd"}, False), ({"iso": 1}, False), ({"apply_a2": False}, False),
+                        ({"decomposition": "csd", "iso": 1, "apply_a2": False}, False),
+                        ({"decomposition": "qsd", "iso": n - 1, "apply_a2": False}, True), ({"decomposition": "qr"}, True)):
+            if n == 3 and len(kw) == 1:
+                continue            # single keywords at 4x4 only (8x8 costs ~4x more); all at once at both sizes
+            m, q = place(n)
+            cases.append({"kind": "divfn", "fn": "unitary", "form": "phase-i-haar" if n == 2 else "f64-orthogonal", "n": n, "kw": kw,
+                          "positional": pos, "use": rng.choice(uses), "m": m, "q": q, "seed": rng.getrandbits(31)})
+        for scheme, pos in (("csd", True), ("knill", False), ("ccd", True)):
+            m, q = place(n)
+            cases.append({"kind": "divfn", "fn": "isometry.decompose", "form": "c128-zero-imag", "n": n, "mcols": n - 1, "kw": {"scheme": scheme},
+                          "positional": pos, "use": rng.choice(uses), "m": m, "q": q, "seed": rng.getrandbits(31)})
+    return cases
+
+
+RUNNERS["div"] = run_div
+RUNNERS["divfn"] = run_divfn
+
+
 # ------------------------------------------------------------------------------------------------
 # entry points used by the framework
 # ------------------------------------------------------------------------------------------------
@@ -2105,6 +3513,10 @@ def run(ctx):
     boundary_probes(ctx)
     probe_pivot_aux(ctx)
     probes(ctx)
+    for case in diversity_cases(ctx) + diversity_fn_cases(ctx):
+        run_case(ctx, case)
+    diversity_probes(ctx)
+    diversity_findings(ctx)
 
 
 def search(ctx, hints):
@@ -2120,6 +3532,8 @@ def search(ctx, hints):
         run_case(ctx, case)
     for case in loop_cases(ctx):
         run_case(ctx, case)
+    for case in diversity_cases(ctx) + diversity_fn_cases(ctx):
+        run_case(ctx, case)
     probes(ctx)
 
 
@@ -2130,6 +3544,9 @@ def replay(ctx, payload):
         return
     if case.get("kind") == "bprobe":
         boundary_probes(ctx)
+        return
+    if case.get("kind") == "dprobe":
+        diversity_findings(ctx)
         return
     run_case(ctx, case)
 
